@@ -101,7 +101,7 @@ func CtrlStream(args []string) {
 			}
 			if derr != nil {
 				outcomes[side.name+": stream does not decode"]++
-				res.AddViolation(map[string]any{"kind": "control_stream_is_not_a_sequence_of_whole_records", "written_by": side.name},
+				res.AddViolation(map[string]any{"kind": "control_stream_is_not_a_sequence_of_whole_records", "written_by": side.name, "property": "C18"},
 					map[string]any{"cfg": cfg, "files": nfiles, "bytes": len(b), "records_decoded_before_the_failure": n, "error": derr.Error(), "outcome": o})
 			} else {
 				outcomes[side.name+": decodes to the last byte"]++
@@ -109,6 +109,9 @@ func CtrlStream(args []string) {
 		}
 		if !(o.SendOK && o.RecvOK && o.TreeEqual) {
 			outcomes["transfer did not succeed"]++
+			// nothing was injected: these are healthy (partly resumed) transfers, and they must complete (C03)
+			res.AddViolation(map[string]any{"kind": "healthy_transfer_failed", "via": "ctrl-stream", "property": "C03"},
+				map[string]any{"cfg": cfg, "files": nfiles, "outcome": o})
 		}
 		os.RemoveAll(dir)
 	}
